@@ -169,7 +169,7 @@ def split_version(c, nums):
     for name, nsome in (("i0", 1), ("i1", 1), ("i01", K), ("i02", K), ("i12", 1), ("n", 1)):
         some = take(nsome)
         g, gd, al, ad = take(K), take(1)[0], take(K), take(1)[0]
-        res[name] = dict(some=some, get=g, get_dups=gd, all=al, all_dups=ad)
+        res[name] = dict(some=some, get=g, get_dups=gd, all=al, all_dups=ad, panic=(gd == -1))
     assert pos[0] == len(nums)
     return res
 
@@ -267,12 +267,14 @@ def check_laws(c, steps):
     viol = []
     seen = set()
 
+    flags = dict(double=False)
+
     def add(law, i, view, ver, detail):
         key = (law, view, ver)
         if key in seen:
             return
         seen.add(key)
-        viol.append(dict(law=law, op=i, view=view, ver=ver, text=LAW_TEXT[law], detail=detail,
+        viol.append(dict(law=law, op=i, view=view, ver=ver, text=LAW_TEXT[law], detail=detail, double=flags["double"],
                          merge=c["ops"][i][0] if i < len(c["ops"]) else None))
     for i, (o, st) in enumerate(zip(c["ops"], steps)):
         if isinstance(st, tuple) and st[0] == "panic":
@@ -321,6 +323,9 @@ def check_laws(c, steps):
 
             def union(a, b):
                 return [a[k] | b[k] for k in range(K)]
+            # the answers are exactly those of a provider that merged twice: everything inserted is already in
+            # total and delta serves nothing
+            flags["double"] = o[0] == "m" and any(e_d) and r_t == e_td and not any(r_d)
             x = sub(union(r_t, r_d), e_td)
             if any(x):
                 add("P2a", i, "n", "T+D", "not in the closure: %s" % show(x, d1, ter))
@@ -335,6 +340,9 @@ def check_laws(c, steps):
                 add("P3b", i, "n", "T", "lost from total: %s" % show(x, d1, ter))
             for ver, V, low in (("T", T, e_t), ("D", D, e_d)):
                 for view, f in V.items():
+                    if f.get("panic"):
+                        add("PANIC", i, view, ver, "reading the view panicked (Option::unwrap on None in the reverse-map lookup)")
+                        continue
                     for kind in ("get", "all"):
                         x = sub(low, f[kind])
                         if any(x):
@@ -521,16 +529,13 @@ def classify(c, v):
     if c["suite"] != "ter":
         return None
     law, view, ver = v["law"], v["view"], v["ver"]
-    rev_view = view.split("_")[0] in ("i1", "i12")
     if law == "P4s" and view == "i12_all":
         return "ternary_ind12_iter_all_unsound"
-    if law == "P4c" and rev_view and ver == "D":
-        return "ternary_reverse_delta_incomplete"
-    if law == "P3a" and v.get("merge") == "m":
+    if v.get("merge") == "m" and (law == "P3a" or (v.get("double") and law in ("P4c", "P5"))):
         return "ternary_full_index_merges_twice"
-    if law in ("P2b", "P3b", "P5") or (law == "P4c" and not (rev_view and ver == "D")):
+    if law in ("P2b", "P3b", "P4c", "P5"):
         return "ternary_merge_drops_delta"
-    if law == "PANIC" and "unwrap" in v["detail"] and "None" in v["detail"]:
+    if law == "PANIC" and view in ("i1", "i12") and ver == "D":
         return "ternary_merge_drops_delta"
     return None
 
